@@ -168,6 +168,7 @@ func (st *State) chanRecv(x *ssa.UnOp) {
 	}
 	st.fr.names["$recvok"] = TV{okv, types.Typ[types.Bool]}
 	st.fr.names["$envsend"] = TV{envSend, types.Typ[types.Bool]}
+	st.vc.runGhostRecv(st)
 }
 
 // chanValueAt: the value delivered by a receive.
@@ -212,6 +213,10 @@ func (st *State) chanStructAt(ch, k Term, t types.Type, prefix string, ok, env T
 
 func (st *State) selectOp(x *ssa.Select) {
 	vc := st.vc
+	if !x.Blocking && len(x.States) == 1 && x.States[0].Dir == types.RecvOnly {
+		st.selectRecvNonBlocking(x)
+		return
+	}
 	if x.Blocking || len(x.States) != 1 || x.States[0].Dir != types.SendOnly {
 		fail("unsupported select form")
 	}
@@ -245,6 +250,34 @@ func (st *State) selectOp(x *ssa.Select) {
 	st.chanSet(ch, "rcvd", st.define("rcvd", tIte(tAnd(sentB, tNot(room)), tAdd(rcvd, tInt(1)), rcvd)))
 	idx := st.define("selidx", tIte(sentB, tInt(0), tInt(-1)))
 	st.bind(x, TupleV{[]Val{TV{idx, types.Typ[types.Int]}, TV{tFalse, types.Typ[types.Bool]}}})
+}
+
+// selectRecvNonBlocking: `select { case v, ok := <-ch: ... default: }`. The case is taken iff the channel is non-nil and either holds a
+// buffered value or is closed (a sender parked on an unbuffered channel may also be taken: left open); nothing blocks.
+func (st *State) selectRecvNonBlocking(x *ssa.Select) {
+	ch := st.value(x.States[0].Chan).(TV).T
+	el := x.States[0].Chan.Type().Underlying().(*types.Chan).Elem()
+	st.curChanElem = el
+	st.chanWF(ch)
+	nonnil := tNot(tEq(ch, tInt(0)))
+	sent, rcvd := st.chanGet(ch, "sent"), st.chanGet(ch, "rcvd")
+	has := tLt(rcvd, sent)
+	open := st.chanGet(ch, "open")
+	taken := st.declare("seltaken", SBool)
+	st.assume(tImp(taken, nonnil))
+	st.assume(tImp(tAnd(nonnil, tOr(has, tNot(open))), taken))
+	// taken on an empty open channel: only by rendez-vous with a parked sender of an unbuffered channel
+	envSend := st.define("selenv", tAnd(taken, tNot(has), open))
+	st.assume(tImp(envSend, tEq(st.chanGet(ch, "cap"), tInt(0))))
+	okv := st.define("selrecvok", tAnd(taken, tOr(has, envSend)))
+	st.curChanElem = el
+	val := st.chanValueAt(ch, rcvd, el, okv, envSend)
+	st.chanSet(ch, "sent", st.define("sent", tIte(envSend, tAdd(sent, tInt(1)), sent)))
+	st.chanSet(ch, "rcvd", st.define("rcvd", tIte(okv, tAdd(rcvd, tInt(1)), rcvd)))
+	idx := st.define("selidx", tIte(taken, tInt(0), tInt(-1)))
+	// Select yields (index, recvOk, received values...)
+	st.bind(x, TupleV{[]Val{TV{idx, types.Typ[types.Int]}, TV{okv, types.Typ[types.Bool]}, val}})
+	st.vc.runGhostRecv(st)
 }
 
 // ghostCount: G:$<name>[idx]++ (event counters exposed to contracts: $broadcasts, $wgdone, $tickerStopped).
